@@ -73,7 +73,7 @@ MaxArgs(name) ==
                  "escape", "newline_to_br", "strip_html", "strip_newlines", "strip", "lstrip",
                  "rstrip", "url_encode", "url_decode", "json", "inspect", "type"} -> 0
     [] name \in {"default", "concat", "join", "map", "sort", "sort_natural", "modulo", "minus",
-                 "plus", "times", "divided_by", "round", "append", "prepend", "remove",
+                 "plus", "times", "divided_by", "round", "append", "prepend", "remove", "lqx_rep",
                  "remove_first", "split", "date",
                  "upcase", "downcase", "capitalize", "escape_once"} -> 1
     [] name \in {"replace", "replace_first", "slice", "truncate", "truncatewords"} -> 2
@@ -380,6 +380,13 @@ Filter(name, recv, args) ==
      ELSE IF recv.k = "nil" \/ (recv.k = "bool" /\ ~recv.v) \/ IsEmptyV(recv) THEN FVal(args[1])
      ELSE FVal(recv))
   ELSE IF name = "date" THEN DateFilter(recv, args)
+  \* lqx_rep: a filter of the embedding program (Engine.RegisterFilter with func(string, int) string, repeating the
+  \* text) - known where it is registered; its arguments are converted as for the standard filters
+  ELSE IF name = "lqx_rep" THEN
+    (IF recv.k # "str" \/ Len(args) # 1 THEN FUnspec
+     ELSE IF args[1].k = "int" /\ args[1].v \in 0..50 THEN FVal(Str(Flatten([i \in 1..args[1].v |-> recv.v])))
+     ELSE IF args[1].k = "str" /\ DefinitelyNotNumber(args[1].v) THEN FErr
+     ELSE FUnspec)
   ELSE IF name = "size" THEN
     (IF recv.k = "str" THEN StringFilter(name, recv.v, args)
      ELSE IF AsArr(recv).ok THEN ArrayFilter(name, AsArr(recv).v, args, AsArr(recv).nf)
